@@ -160,23 +160,28 @@ def run(ctx):
                             ch_blocks.append(i)
                         else:
                             ok, why = False, f"closure returns {sym_str(v)[:60]}"
-                true_edges = []
-                for bb, d, t_t, f_t in bool_switches(b):
-                    if sym_is_call(d, start_p, rest_p):
-                        true_edges.append((bb, t_t))
-                        # index test guarding this predicate
-                        g = gates(b, [c for c in cf.body.calls() if c.t["dest"] == b.term(bb)["discr"].get("move", b.term(bb)["discr"].get("copy"))][0].bb) if False else gates(b, pcs[start_p if sym_is_call(d, start_p) else rest_p].bb)
-                        want_first = sym_is_call(d, start_p)
-                        idx_ok = False
-                        for gd, lab in g:
-                            gd = strip_sym(gd)
-                            if gd[0] == "bin" and gd[1] in ("Eq", "Ne") and strip_sym(gd[3])[:3] == ("const", "int", 0):
-                                is_first = (gd[1] == "Eq") == (lab is True)
-                                idx_ok = is_first == want_first
-                        if not idx_ok:
-                            ok, why = False, f"{start_p if want_first else rest_p} is not applied to {'the first' if want_first else 'non-first'} position only"
+                # each predicate is consulted for its own position only
+                for pn_, want_first in ((start_p, True), (rest_p, False)):
+                    idx_ok = False
+                    for gd, lab in gates(b, pcs[pn_].bb, up=False):
+                        gd = strip_sym(gd)
+                        if gd[0] == "bin" and gd[1] in ("Eq", "Ne") and strip_sym(gd[3])[:3] == ("const", "int", 0):
+                            is_first = (gd[1] == "Eq") == (lab is True)
+                            idx_ok = is_first == want_first
+                        elif gd[0] == "bin" and gd[1] in ("Gt", "Lt") and (strip_sym(gd[3])[:3] == ("const", "int", 0) or strip_sym(gd[2])[:3] == ("const", "int", 0)):
+                            # i > 0 / 0 < i
+                            nonfirst = lab is True
+                            idx_ok = (not nonfirst) == want_first
+                    if not idx_ok:
+                        ok, why = False, f"{pn_} is not applied to {'the first' if want_first else 'non-first'} position only"
                 if ok:
-                    ok = len(ch_blocks) >= 1 and len(us_blocks) >= 1 and all(b.edges_dominate(true_edges, cb) for cb in ch_blocks)
+                    from facts import PredFlow
+
+                    def cbool(x):
+                        return ("P", "N") if sym_is_call(x, start_p, rest_p) else None
+
+                    fl = PredFlow(cf, lambda subj, v: None, cbool)
+                    ok = len(ch_blocks) >= 1 and len(us_blocks) >= 1 and all(fl.at(cb) == "P" for cb in ch_blocks)
                     why = "the character is returned on a path where neither predicate accepted it"
         chk.ob("C08.b", f.path, ok, f"per character: c if (first && {start_p}(c)) || (!first && {rest_p}(c)) else '_'" if ok else why, f.loc())
 
@@ -273,6 +278,19 @@ def run(ctx):
         unit_p = [c for c in ps if c.is_("String::push_str") and (sym_is_call(sym_through(arg_syms(c)[1]), "unit_suffix", "Unit::as_str") or "unit_suffix" in sym_str(arg_syms(c)[1]) or const_str(arg_syms(c)[1]) == "ratio")]
         ok = len(name_p) == 1 and len(suf_p) == 1 and all(b.dominates(name_p[0].bb, c.bb) for c in suf_p + unit_p)
         ok = ok and all(u.bb not in b.reachable(suf_p[0].bb) for u in unit_p)
+        if not ok and len(name_p) == 1:
+            # idiom: one push_str inside `for part in <unit>.into_iter().chain(<suffix>)` — chain() yields the unit first
+            from props.common import iteration_context
+
+            for c in ps:
+                if not c.is_("String::push_str") or c in name_p or not b.dominates(name_p[0].bb, c.bb):
+                    continue
+                src, _why = iteration_context(c)
+                src = strip_sym(src) if src is not None else None
+                if src is not None and sym_is_call(src, "Iterator::chain"):
+                    first, second = sym_str(src[2][0]), repr(src[2][1])
+                    if "unit_suffix" in first and "('arg', 2" in second and "('arg', 2" not in repr(src[2][0]):
+                        ok = True
         chk.ob("C08.c", f"{wml.path} [unit before suffix]", ok, "sample name = name [_unit] [_suffix]" if ok else "write_metric_line appends the unit after the type suffix (e.g. foo_bucket_seconds): the sample does not belong to the family named by TYPE", wml.loc())
         # ---------------- C08.g literals
         lits = set()
